@@ -15,6 +15,7 @@
 package cond
 
 import (
+	"time"
 	"bytes"
 	"encoding/json"
 	"flag"
@@ -84,7 +85,11 @@ func AtomText(t *Tree, cmp string) string {
 	var val string
 	switch t.Attr {
 	case "sip", "dip", "src", "dst", "host":
-		val = IPString(t.B)
+		if t.Sym != "" {
+			val = t.Sym // a host name, resolved when the condition is prepared
+		} else {
+			val = IPString(t.B)
+		}
 	case "snet", "dnet", "net":
 		val = IPString(t.B) + "/" + strconv.Itoa(t.N)
 	default:
@@ -126,11 +131,14 @@ func Atoms(t *Tree, acc []*Tree) []*Tree {
 	}
 }
 
+// dnsTimeout bounds the resolution of host names used as values (0: the lookup gives up at once).
+var dnsTimeout = 3 * time.Second
+
 // Parse runs the real ParseAndInstrument; err covers rejections and panics.
 func Parse(text string) (n node.Node, err string) {
 	p := hx.Catch(func() {
 		var e error
-		n, _, e = node.ParseAndInstrument(text, 0)
+		n, _, e = node.ParseAndInstrument(text, dnsTimeout)
 		if e != nil {
 			err = "error: " + e.Error()
 		} else if n == nil {
